@@ -2,6 +2,7 @@ pub mod client;
 pub mod forge;
 pub mod fstree;
 pub mod hist;
+pub mod httpd;
 pub mod json;
 pub mod keys;
 pub mod memtransport;
